@@ -1,4 +1,5 @@
 import Ovldverif.Model.MultiMap
+import Ovldverif.Model.Dependent
 /-!
 # Layer F: `Signature.extract`, `ArgumentAnalyzer`, and the generated entry point (`generate_dispatch`)
 
@@ -128,6 +129,7 @@ structure Arg where
   vid : Nat                  -- identity of the value (for "received exactly what was supplied")
   cls : Ty                   -- `type(v)`
   subtler : Ty               -- `subtler_type(v)`
+  val : DVal := default      -- the value itself, as far as value-dependent checks look at it
 deriving Inhabited
 
 structure Call where
